@@ -46,6 +46,31 @@ def _non_herm(rng, n, margin):
     return H + S
 
 
+def _non_herm_structured(rng, n):
+    """Matrices that violate A = A^H only in one specific place (margin O(1) relative to the entries)."""
+    out = {}
+    H = _herm(rng, n)
+    c = refq.fa(H)
+    d = c.copy(); d[n // 2, n // 2, 1:] = [0.6, -0.8, 0.3]
+    out["diag_one_entry_nonreal"] = refq.qa(d)
+    d = c.copy(); d[np.arange(n), np.arange(n), 2] = 0.7
+    out["diag_all_nonreal"] = refq.qa(d)
+    if n >= 2:
+        d = c.copy(); d[n - 1, 0] = d[n - 1, 0] + np.array([0.9, 0.4, -0.5, 0.3])
+        out["corner_entry_only"] = refq.qa(d)
+        d = c.copy(); d[0, 1] = d[0, 1] + np.array([0.0, 0.8, 0.0, 0.0])
+        out["single_upper_entry"] = refq.qa(d)
+        d = c.copy(); d[1, 0, 0] = d[1, 0, 0] + 0.9
+        out["real_part_asymmetric"] = refq.qa(d)
+        d = c.copy(); d[1, 0] = d[0, 1]                 # symmetric instead of conjugate-symmetric in one pair
+        if not np.any(d[0, 1, 1:]):
+            d[0, 1, 1] = d[1, 0, 1] = 0.5
+        out["one_pair_not_conjugated"] = refq.qa(d)
+        G = refq.randq(rng, n, n)
+        out["transpose_symmetric"] = refq.qa(0.5 * (refq.fa(G) + np.swapaxes(refq.fa(G), 0, 1)))   # A = A^T, not A^H
+    return out
+
+
 def build_table(R, rng):
     """List of (entry, cls, thunk, args) ; thunk() performs the call on args (list of arrays to digest)."""
     U, S, D, T, Q = R.utils, R.solver, R.decomp, R.tensor, R.qslst
@@ -94,6 +119,9 @@ def build_table(R, rng):
     for mg in (1e-2, 1.0):
         NH = _non_herm(rng, 3, mg)
         add("det(Moore)", f"NH:{mg}", lambda NH=NH: U.det(NH, "Moore"), NH)
+    for nn in (1, 2, 4):
+        for lab, NH in _non_herm_structured(rng, nn).items():
+            add("det(Moore)", f"NH:{lab}:n={nn}", lambda NH=NH: U.det(NH, "Moore"), NH)
     add("det(Dieudonne)", "DT:real", lambda: U.det(real, "Dieudonne"), real)
     add("det(Dieudonne)", "SP", lambda: U.det(sp33, "Dieudonne"))
     # --- rank / null spaces -------------------------------------------------------------
@@ -160,11 +188,17 @@ def build_table(R, rng):
         for mg in (1e-2, 1.0):
             NH = _non_herm(rng, 3, mg)
             add(name, f"NH:{mg}", lambda f=f, NH=NH: f(NH), NH)
+        for nn in (1, 2, 3, 5):
+            for lab, NH in _non_herm_structured(rng, nn).items():
+                add(name, f"NH:{lab}:n={nn}", lambda f=f, NH=NH: f(NH), NH)
         add(name, "SP", lambda f=f: f(R.sparse_from_dense(_herm(rng, 3))))
     add("tridiagonalize", "NS", lambda: D.tridiagonalize(A23), A23)
     for mg in (1e-2, 1.0):
         NH = _non_herm(rng, 4, mg)
         add("tridiagonalize", f"NH:{mg}", lambda NH=NH: D.tridiagonalize(NH), NH)
+    for nn in (2, 3, 6):
+        for lab, NH in _non_herm_structured(rng, nn).items():
+            add("tridiagonalize", f"NH:{lab}:n={nn}", lambda NH=NH: D.tridiagonalize(NH), NH)
     one = refq.qa(np.array([[[2.0, 0, 0, 0]]]))
     add("tridiagonalize", "SZ:1x1", lambda: D.tridiagonalize(one), one)
     add("tridiagonalize", "SP", lambda: D.tridiagonalize(R.sparse_from_dense(_herm(rng, 3))))
